@@ -77,6 +77,7 @@ void Library::copy_from(const Library& library, bool deep_copy) {
     }
     // raw cells should be immutable, so there's no need to perform a deep copy
     rawcell_array.copy_from(library.rawcell_array);
+    properties = properties_copy(library.properties);
 }
 
 void Library::get_shape_tags(Set<Tag>& result) const {
